@@ -75,6 +75,8 @@ pub struct Sx126xChip {
     pub spurious: u8,
     /// board-dependent setup that must also be present at every start ("regulator", "tcxo")
     pub needed_extra: Vec<&'static str>,
+    /// RX duty cycle: the chip may be in the sleep phase of the cycle until a GetStatus has woken it
+    pub dc_woken: bool,
 }
 
 pub const SX126X_NEEDED_TX: [&str; 9] = ["packet_type", "sync_word", "buffer_base", "modulation", "packet_params", "irq_params", "frequency", "pa_config", "tx_params"];
@@ -116,6 +118,7 @@ impl Sx126xChip {
             pending: None,
             spurious: 0,
             needed_extra: vec![],
+            dc_woken: false,
         }
     }
 
@@ -261,6 +264,18 @@ impl ChipModel for Sx126xChip {
             self.mode = Mode::Standby;
             return vec![self.status(); read_len];
         }
+        if self.deferred && self.mode == Mode::RxDutyCycle && !self.dc_woken {
+            // the chip alternates between RX and sleep: a command that hits the sleep phase is lost, so
+            // anything that changes state has to be preceded by the GetStatus wake-up (reads are let through)
+            match op {
+                0xC0 => self.dc_woken = true,
+                0x12 | 0x13 | 0x14 | 0x15 | 0x17 | 0x1D | 0x1E | 0x02 => {}
+                _ => {
+                    self.violations.push(format!("command {op:#04x} sent to a chip in RX duty cycle without the wake-up (lost if it hits the sleep phase)"));
+                    return vec![self.status(); read_len];
+                }
+            }
+        }
         let p = &w[1..];
         let g = |i: usize| p.get(i).copied().unwrap_or(0);
         match op {
@@ -291,6 +306,7 @@ impl ChipModel for Sx126xChip {
                 self.check_start(&SX126X_NEEDED_RX, "RX");
                 let timeout = ((g(0) as u32) << 16) | ((g(1) as u32) << 8) | g(2) as u32;
                 let continuous = op == 0x82 && timeout == 0xFF_FFFF;
+                self.dc_woken = false;
                 self.mode = if op == 0x94 {
                     Mode::RxDutyCycle
                 } else if continuous {
